@@ -154,6 +154,7 @@ def m4_molecule_strict_is_canonical(S):
     """every dynamic schema type: strict decoding accepts exactly the canonical encodings (one level per type, nested types as
     predicates: assume-guarantee over the acyclic schema); fixed-size types: exactly their size, getters at their offsets"""
     from obligations import molecule_m as MM
+    MM.set_tier(S)
     ob = "C15.m4"
     for t in MM.dynamic_types():
         MM.strict_and_compat(S, ob, t, 5)
